@@ -15,6 +15,7 @@ import (
 	"strings"
 
 	"github.com/FollowTheProcess/spok/file"
+	"github.com/FollowTheProcess/spok/iostream"
 	"github.com/FollowTheProcess/spok/logger"
 	"github.com/FollowTheProcess/spok/parser"
 	"github.com/bmatcuk/doublestar/v4"
@@ -157,7 +158,8 @@ func globCmd(args []string) error {
 			if err != nil {
 				return "", err
 			}
-			if err := sf.ExpandGlobs(); err != nil {
+			// Run expands every glob of the file before it runs anything; the task's command is swallowed by the runner
+			if _, err := sf.Run(iostream.Null(), &recRunner{}, true, "t"); err != nil {
 				return "", err
 			}
 			var rel []string
